@@ -180,7 +180,10 @@ _c("C01",
    "normalisation-collision witness. Deserialization is also proved with its real pre-processing (C01_deser_sound, "
    "C01_deserialize_sound, C01_deser_then_chain_sound over Ser/Deserialize.v: any document, nested objects/collections/multi-field "
    "wrappers/Enum names, keep_undefined, compact form), and shown to BE the entry point EDeser on the computed keyword arguments "
-   "(C01_deser_as_entry). Two assumptions of the hand-written model are re-derived from the working tree on every run: (1) HOW each "
+   "(C01_deser_as_entry); nested instances: the domain-checked deserializer deser_checked agrees with deser_struct whenever it returns "
+   "(C01_deser_checked_agrees: deserialize_single_field is monotone in the function used for nested classes) and its result is valid "
+   "together with every instance nested in it (C01_deser_deep_sound; both by structural induction over the deserializer's code). "
+   "Two assumptions of the hand-written model are re-derived from the working tree on every run: (1) HOW each "
    "entry point produces its result is a table read off the AST (Gen/EntrySites.v: kinds of every return statement of "
    "shallow_clone_with_overrides, cast_to, from_other_class, __deepcopy__, __copy__, __getstate__, deserialize_structure(_internal), "
    "Deserializer.deserialize); C01 is proved for EVERY safe table (C01_entry_sites_sound, C01_chain_sites_sound), an unsafe table has "
@@ -193,8 +196,7 @@ _c("C01",
    "with the model's run_entry inside Coq; JSON-shaped documents are additionally compared with the deserialization model.",
    "Trusted: Coq kernel + vm_compute; Instance.v/Entry.v/Deserialize.v hand-written (validated by correspondence); the two recognisers "
    "harness/genmods/c01_entry_sites.py and c01_enum_guard.py (fail closed: XOther / UNTRANSLATABLE); copy/deepcopy/pickle value-preserving "
-   "in the model (compared up to ==, the recognised copy idioms are what the site table checks); nested-instance validity after "
-   "deserialization is judged on the implementation (deep_valid on the observed instance), not proved; deser_dom / entry_dom restrict the "
+   "in the model (compared up to ==, the recognised copy idioms are what the site table checks); deser_dom / deser_checked / entry_dom restrict the "
    "theorems to the statement's domain (no bool where a number is expected, int->float exact, stable collection constraints); "
    "StructureReference, date/time fields, constants, _optional spelling, mappers/camel-case deserialization are not generated.",
    "Coq proof (structural induction over declarations, induction over entry-point chains, characterisation parametric in a generated "
